@@ -359,3 +359,53 @@ Proof.
   - intros id Hid. unfold find_sv, del_sv. apply (gfind_gdel_other sv_id). exact Hid.
   - intros d. rewrite Hb1. unfold xfer. change (ESMA =? VAULT) with false. rewrite Z.eqb_refl. cbn [andb]. rewrite (Z.eqb_sym d). destruct (ep_in ep =? d); lia.
 Qed.
+
+Lemma e_stable_one_invE c lc app e x e1 : cfg_ok c -> roles_ok c -> InvE c e -> find_sv (svaults (vs (el e))) (sv_id x) = Some x ->
+  e_stable_one c lc app e x = Ok e1 ->
+  InvE c e1 /\ (forall id, id <> sv_id x -> find_sv (svaults (vs (el e1))) id = find_sv (svaults (vs (el e))) id) /\
+  eflags e1 = eflags e /\ (forall ext, InvE02 c ext e -> InvE02 c ext e1).
+Proof.
+  intros CK RO I M H. destruct (e_stable_one_spec c lc app e x e1 H) as [[_ ->]|(Ha & ep & b1 & Mep & Hamt & Hb1 & VR)].
+  - split; [exact I|]. split; [reflexivity|]. split; [reflexivity|]. intros ext J; exact J.
+  - destruct (stable_life_invL c (el e) app ep x b1 (ie_life _ _ I) M Ha Mep Hamt Hb1) as (IL & Hf & Hv & Hx & Hs & Hb).
+    set (l1 := stable_life (el e) (stable_books (set_bal (vs (el e)) b1) app x) app ep x) in *.
+    assert (UL : users_ok l1).
+    { apply (users_sub (el e) l1 (ie_users _ _ I)); [reflexivity|]. unfold l1, stable_life. cbn [vs]. rewrite Hv. auto. }
+    assert (Hd : forall d, edebt l1 d = edebt (el e) d + (if ep_out ep =? d then sv_out x else 0)).
+    { intros d. unfold l1, stable_life. cbn [edebt]. unfold add1. rewrite (Z.eqb_sym d). destruct (ep_out ep =? d); lia. }
+    split; [|split; [|split]].
+    + exact (reg_invE c app e e1 l1 ep (sv_in x) (sv_out x) CK RO I (get_ep_in _ _ _ Mep) Hamt VR IL UL Hb Hd).
+    + rewrite (vr_el _ _ _ _ _ _ _ VR). exact Hf.
+    + exact (vr_flags _ _ _ _ _ _ _ VR).
+    + intros ext [J G]. destruct (vr_ghost _ _ _ _ _ _ _ VR) as (_ & _ & Hg). split; [|rewrite Hg; exact G].
+      rewrite (vr_el _ _ _ _ _ _ _ VR), Hg. intros d. destruct (J d) as [J1 J2]. split; [|exact J2].
+      unfold recorded_d, debt_sum, lock_prin_d in *. unfold l1 at 1 2 3 4 5. unfold stable_life. cbn [vs lks over]. fold l1. rewrite Hd, Hv, Hx, Hs.
+      unfold del_sv. rewrite (gdel_wsum sv_id _ _ _ x M). rewrite (denom_out_ep _ _ _ Mep). change (over l1 d) with (over (el e) d).
+      destruct (ep_out ep =? d); lia.
+Qed.
+
+Lemma e_stable_loop_invE c lc app xl : cfg_ok c -> roles_ok c -> NoDup (map sv_id xl) -> forall e e', InvE c e ->
+  (forall x, In x xl -> find_sv (svaults (vs (el e))) (sv_id x) = Some x) ->
+  e_stable_loop c lc app xl e = Ok e' ->
+  InvE c e' /\ eflags e' = eflags e /\ (forall ext, InvE02 c ext e -> InvE02 c ext e').
+Proof.
+  intros CK RO. induction xl as [|x xl IH]; intros Hnd e e' I HF H; cbn [e_stable_loop] in H.
+  - injection H as <-. split; [exact I|]. split; [reflexivity|]. intros ext J; exact J.
+  - inversion Hnd as [|? ? Hny Hnd']; subst.
+    destruct (e_stable_one c lc app e x) as [e1| |] eqn:E1; cbn [obind] in H; try discriminate H.
+    destruct (e_stable_one_invE c lc app e x e1 CK RO I (HF x (or_introl eq_refl)) E1) as (I1 & Hf1 & Fl1 & J1).
+    destruct (IH Hnd' e1 e' I1) as (I' & Fl' & J'); [|exact H|].
+    + intros w Hw. rewrite Hf1; [apply HF; right; exact Hw|]. intros Eq. apply Hny. rewrite <- Eq. apply in_map. exact Hw.
+    + split; [exact I'|]. split; [rewrite Fl', Fl1; reflexivity|]. intros ext J. exact (J' ext (J1 ext J)).
+Qed.
+
+Theorem e_stable_invE c lc e app e' : cfg_ok c -> roles_ok c -> InvE c e -> e_stable c lc e app = Ok e' ->
+  InvE c e' /\ (forall ext, InvE02 c ext e -> InvE02 c ext e').
+Proof.
+  intros CK RO I H. unfold e_stable in H. destruct (negb (EsmLife.ef_found (eflags e app))); [discriminate H|].
+  destruct (e_stable_loop c lc app (svaults (vs (el e))) e) as [e1| |] eqn:L; cbn [obind] in H; try discriminate H. injection H as <-.
+  assert (Hnd : NoDup (map sv_id (svaults (vs (el e))))) by (apply sorted_nodup; exact (i_sorted_sv _ _ (il_view _ _ (ie_life _ _ I)))).
+  destruct (e_stable_loop_invE c lc app _ CK RO Hnd e e1 I) as (I1 & _ & J1); [|exact L|].
+  - intros x Hx. apply (gfind_self sv_id); assumption.
+  - unfold set_flag. split; [apply invE_flags; exact I1|]. intros ext J. apply invE02_flags. exact (J1 ext J).
+Qed.
